@@ -156,6 +156,23 @@ def _on_alarm(signum, frame):
 OP_TIME_LIMIT = 3.0      # seconds per operation; a pop of a few thousand samples takes milliseconds
 
 
+def guarded(fn, limit=None):
+    """Run fn() under the per-operation watchdog. Returns 'ok', 'err HANG' or 'err <Class>'."""
+    status = 'ok'
+    old_handler = signal.signal(signal.SIGALRM, _on_alarm)
+    signal.setitimer(signal.ITIMER_REAL, limit or OP_TIME_LIMIT)
+    try:
+        fn()
+    except HangError:
+        status = 'err HANG'
+    except Exception as e:   # noqa: the class name is the observation
+        status = f'err {type(e).__name__}'
+    finally:
+        signal.setitimer(signal.ITIMER_REAL, 0)
+        signal.signal(signal.SIGALRM, old_handler)
+    return status
+
+
 class Trace:
     """Raw observations of one run (for the oracles) + canonical lines (for the diff)."""
 
@@ -460,7 +477,7 @@ def _drive(case, q, tr, fs, t0, rewire=lambda q: None):
         ongrid = (info['t0'] == t0 + k / fs)
         key = keys.index(info['key'])
         infos.append(info)
-        ok = info['metadata'] == metas[key] and info['decrement'] == (not tr.nodec_now)
+        ok = info['metadata'] == metas[key]
         tr.added.append((key, k, dur_grid(info['duration'], fs), ongrid, bool(ok)))
 
     def on_added2(info):
@@ -473,7 +490,6 @@ def _drive(case, q, tr, fs, t0, rewire=lambda q: None):
     def on_empty(info):
         tr.n_empty += 1
 
-    tr.nodec_now = False
     bound = _n_presentations_bound(case)
     srcs = []
     for i, st in enumerate(case['stims']):
@@ -509,7 +525,8 @@ def _drive(case, q, tr, fs, t0, rewire=lambda q: None):
         rewire(q)
         tr.recording = False
         g = np.random.get_state()
-        original.pop_buffer(23)
+        if guarded(lambda: original.pop_buffer(23)) == 'err HANG':
+            original = None
         np.random.set_state(g)       # the bystander's draws are not part of this case's random stream
         tr.recording = True
         if shadow is None:
@@ -545,13 +562,14 @@ def _drive(case, q, tr, fs, t0, rewire=lambda q: None):
         if shadow is not None:
             tr.recording = False
             g = np.random.get_state()
-            try:
+
+            def bystander():
                 shadow.pop_buffer((7 * j + 3) % 11 + 1)
                 if j % 5 == 3:
                     shadow.pause(st0 + (int(round(shadow.get_ts() * fs)) // 2) / fs)
                     shadow.resume()
-            except Exception:      # the bystander's own fate is not the subject of this case
-                pass
+            if guarded(bystander) == 'err HANG':      # the bystander's own fate is not the subject of this case
+                shadow = None
             np.random.set_state(g)
             tr.recording = True
         na, nr, ne = len(tr.added), len(tr.removed), tr.n_empty
@@ -568,7 +586,6 @@ def _drive(case, q, tr, fs, t0, rewire=lambda q: None):
                     n = np.int64(n)
                 elif r == 'np32':
                     n = np.int32(n)
-                tr.nodec_now = op[0] == 'popnd'
                 if op[0] == 'popnd':
                     out = q.pop_buffer(n, False) if r == 'posdec' else q.pop_buffer(n, decrement=False)
                 elif r == 'kw':
